@@ -27,6 +27,7 @@ import (
 	"context"
 	"encoding/binary"
 	"errors"
+	"fmt"
 	"runtime"
 	"sync"
 	"syscall"
@@ -631,6 +632,19 @@ func jScriptAt(s []uint64, k int) uint64 {
 	return 0
 }
 
+// scriptedPanic panics with a string, with an error value, or through a runtime error (all are replayer panics to Joe).
+func scriptedPanic(k int, what string) {
+	switch k % 3 {
+	case 0:
+		panic("scripted " + what + " panic")
+	case 1:
+		panic(fmt.Errorf("scripted %s panic carrying an error value", what))
+	default:
+		var m map[string]int
+		m[what] = 1 // assignment to entry in nil map: a runtime.Error
+	}
+}
+
 func (r *jrep) Put(m *sse.Message, topics []string) (out *sse.Message, err error) {
 	p := r.x.tokOf(m)
 	v := jScriptAt(r.x.sc.putScript, r.nput)
@@ -644,7 +658,7 @@ func (r *jrep) Put(m *sse.Message, topics []string) (out *sse.Message, err error
 	}()
 	switch {
 	case v == 98:
-		panic("scripted Put panic")
+		scriptedPanic(r.nput+len(r.x.sc.subs), "Put")
 	case v >= 100:
 		out, err = nil, codeErr{v}
 	case r.inner == nil:
@@ -668,7 +682,7 @@ func (r *jrep) Replay(sub sse.Subscription) error {
 	r.x.after(41, i, seq)
 	switch {
 	case v == 98:
-		panic("scripted Replay panic")
+		scriptedPanic(r.nrep+len(r.x.sc.pubs), "Replay")
 	case v >= 100:
 		return codeErr{v}
 	case r.inner == nil:
